@@ -2,8 +2,10 @@ package main
 
 import (
 	"bytes"
+	"errors"
 	"fmt"
 	"io"
+	"testing/iotest"
 	"math"
 	"os"
 	"path/filepath"
@@ -885,6 +887,71 @@ func c01ConcurrentLoads(c *C) {
 		}()
 	}
 	c.Cover("concurrent_loads_of_good_broken_missing_panicking_names")
+	// a loader whose Get succeeds but whose reader breaks down in the middle (a network file system, a truncated
+	// archive), behind every tag that loads another template, at compile time and at execution time: an error, no panic
+	frFiles := map[string]string{
+		"/t_inc.tpl": `a{% include "/fr_x.tpl" %}b`, "/t_incif.tpl": `a{% include "/fr_x.tpl" if_exists %}b`, "/t_lazy.tpl": `a{% include nm %}b`, "/t_lazyif.tpl": `a{% include nm if_exists %}b`,
+		"/t_ext.tpl": `{% extends "/fr_x.tpl" %}{% block b %}x{% endblock %}`, "/t_imp.tpl": `{% import "/fr_x.tpl" m %}{{ m() }}`, "/t_ssi.tpl": `a{% ssi "/fr_x.tpl" %}b`, "/t_ssip.tpl": `a{% ssi "/fr_x.tpl" parsed %}b`,
+		"/t_nest.tpl": `{% include "/t_inc.tpl" %}{% include "/t_lazy.tpl" %}`, "/fr_x.tpl": `{% macro m() export %}M{% endmacro %}{% block b %}some text of a file that cannot be read to its end{% endblock %}`,
+	}
+	for closer := 0; closer < 2; closer++ {
+		frSet := pongo2.NewSet("c01-failing-reader", &c01FailReadLoader{files: frFiles, closer: closer == 1})
+		for name := range frFiles {
+			for _, viaCache := range []bool{false, true} {
+				var tpl *pongo2.Template
+				var err error
+				if viaCache {
+					tpl, err = frSet.FromCache(name)
+				} else {
+					tpl, err = frSet.FromFile(name)
+				}
+				c.Eval(1)
+				if (tpl == nil) == (err == nil) {
+					c.Fail("template-and-error", D{"name": name, "why": "neither or both of template and error (loader with a reader that fails in the middle)"})
+					return
+				}
+				if name == "/fr_x.tpl" && err == nil {
+					c.Fail("read-error-lost", D{"name": name, "reader_is_closer": closer == 1, "why": "the loader's reader failed after half of the file; FromFile/FromCache returned a template"})
+					return
+				}
+				if tpl != nil {
+					_, xerr := tpl.Execute(pongo2.Context{"nm": "/fr_x.tpl"})
+					c.Eval(1)
+					if xerr == nil && !strings.Contains(name, "if") {
+						c.Fail("read-error-lost", D{"name": name, "source": frFiles[name], "reader_is_closer": closer == 1, "why": "the template it loads at execution time cannot be read; the execution succeeded"})
+						return
+					}
+				}
+			}
+		}
+	}
+	c.Cover("loaders_whose_readers_fail_in_the_middle")
+}
+
+// c01FailReadLoader: names starting with /fr_ are found, but their reader fails after half of the text.
+type c01FailReadLoader struct {
+	files  map[string]string
+	closer bool
+}
+
+type c01ReadCloser struct{ io.Reader }
+
+func (c01ReadCloser) Close() error { return nil }
+
+func (l *c01FailReadLoader) Abs(base, name string) string { return name }
+func (l *c01FailReadLoader) Get(p string) (io.Reader, error) {
+	s, ok := l.files[p]
+	if !ok {
+		return nil, fmt.Errorf("c01FailReadLoader: no template %q", p)
+	}
+	if !strings.HasPrefix(p, "/fr_") {
+		return strings.NewReader(s), nil
+	}
+	var rd io.Reader = io.MultiReader(strings.NewReader(s[:len(s)/2]), iotest.ErrReader(errors.New("c01: connection reset while reading the template")))
+	if l.closer {
+		rd = c01ReadCloser{rd}
+	}
+	return rd, nil
 }
 
 func c01ResourceCase(c *C, i int) {
